@@ -75,11 +75,15 @@ CHECKS = {
               "CRC-32C of the prefix (chunk independent), the modular word sum mod 2^32, four zero bytes for NULL; verify is true iff "
               "equal; CRC spec anchored to the catalogue check values; EOF checksum checked on source traces.", "6/C09",
               "crcmod modelled by the bit-serial CRC of Crc.v (validated each run)."),
-    "C10": _c("Coq proof of the admission/guard theorems (partial: 'no internal error for every history' not proved) + correspondence on hostile streams + exception-class oracle",
-              "PARTIAL proof (props/C10.v): a PDU rejected by the admission checks returns the very same state; admission raises "
+    "C10": _c("Coq proof: admission/guard theorems + whole-state-machine no-internal-error invariants of both handlers + correspondence on hostile streams + exception-class oracle",
+              "Proof (props/C10.v): a PDU rejected by the admission checks returns the very same state; admission raises "
               "library exceptions only; 'unretrieved PDUs' only if the queue was non-empty (sender: whole state machine; receiver: "
-              "guards + ready-counter invariant over the whole state machine). Not proved: absence of internal errors for all "
-              "histories (oracle: every exception class on hostile histories must be a library exception; known finding F9).", "6/C10"),
+              "guards + ready-counter invariant over the whole state machine). WHOLE STATE MACHINES (props/C10b.v): explicit "
+              "well-formedness invariants of both handlers hold for fresh handlers, are preserved by every API call (also a raising "
+              "one) and by the environment, and under them no API call raises AssertionError / AttributeError / TypeError / KeyError "
+              "or exceeds the modelled nesting depth - for every history. ValueError is outside by design (unroutable PDU, packet "
+              "too small, truncated source file, tracker on overlapping data = known finding F9); the oracle checks every exception "
+              "class on hostile histories incl. the fault-handler matrix.", "6/C10"),
     "C11": _c("Coq proof of the idle-is-fresh invariants over both whole state machines + differential run fresh vs reused vs sibling handlers + correspondence",
               "Proof (props/C11.v): whenever a handler is idle its per-transaction parameter block is the freshly constructed one "
               "(invariant of every API call, hence every history); a new transaction ignores whatever was there. Instance isolation "
